@@ -10,6 +10,8 @@ import (
 	"path/filepath"
 	"sort"
 	"time"
+
+	"verif/mc/mcrt"
 )
 
 // Violation is one counterexample, replayable from its file.
@@ -210,6 +212,7 @@ type Result struct {
 	Notes        []string         `json:"notes"`
 	Exhaustive   bool             `json:"exhaustive"`
 	WallS        float64          `json:"wall_s"`
+	MaxWork      int      `json:"max_work"`
 }
 
 // Result assembles the worker result.
@@ -217,6 +220,8 @@ func (c *Ctx) Result(wall float64) *Result {
 	r := &Result{Prop: c.Prop, Shard: c.Shard, Inputs: c.Inputs, InputsTotal: c.InputsTotal, Execs: c.Execs, ChoicePoints: c.ChoicePoints,
 		NonTrivial: c.NonTrivial, Validated: c.Validated, Samples: c.Samples, Caps: c.Caps, Counters: c.Counters, Bounds: c.Bounds,
 		Notes: c.Notes, Exhaustive: c.Exhaustive, WallS: wall}
+	mcrt.Reset(mcrt.Asc, nil, 0) // folds the last execution into MaxWork
+	r.MaxWork = mcrt.MaxWork
 	for h := range c.outcomes {
 		r.Outcomes = append(r.Outcomes, fmt.Sprintf("%016x", h))
 	}
